@@ -188,3 +188,104 @@ def X1(vc):
         vc.ensure('classification', Implies(g, ok))
     vc.canary('canary.always_final', out.final is True)
     return ('return', out.final, type(out.exception).__name__, out.delay)
+
+
+# ----------------------------------------------------------------------------------------------- X6
+@harness('X6', targets='kopf._core.actions.invocation.invoke', props=['C09', 'C20', 'C11'],
+         clauses=['never_finishes_before_the_thread', 'cancellation_postponed_not_lost', 'result_or_error_passed_through',
+                  'async_awaited_directly', 'kwargs_merged'],
+         canaries=['canary.never_cancelled'],
+         trusted=['loop.run_in_executor returns a future that completes when the thread exits',
+                  'asyncio.shield(fut): completes with fut, or raises CancelledError in the waiter while fut keeps running',
+                  'asyncio.wait([fut]) completes when fut does, or is cancelled'],
+         assumes=['at most 3 cancellations of the guarding task while the thread runs (bounded: the postponing loop runs natively)'])
+def X6(vc):
+    """
+    invocation.invoke: an async handler is awaited directly with the async kwargs merged in; a sync handler runs in
+    the executor and the invoking task NEVER finishes (returns or raises) while the handler's thread is still
+    running, however many times it is cancelled meanwhile -- the cancellation is postponed, not lost: once the
+    thread has exited, CancelledError is raised if any cancellation arrived, else the thread's result/error is
+    passed through.  (daemons._runner's "the record is removed only when the daemon has really ended", hence
+    "at most one instance" for sync daemons, rests on this.)
+    """
+    from kopf._core.actions import invocation
+    kind = vc.nondet(2, 'handler kind: sync / async')
+    kwargsrc = Opaque('kwargsrc', sync_kwargs={'s': 1}, async_kwargs={'a': 2})
+    given = {'param': 'P', 'retry': 0}
+    fn_result = Opaque('result')
+    fn_error = vc.fin('handler raises', [None, ValueError('boom'), asyncio.CancelledError()])
+    st = Opaque('state', done=False, cancels=0, called_with=None)
+
+    if kind == 1:
+        async def afn(**kw):
+            st.called_with = kw
+            await suspend('async handler')
+            e = resolve(fn_error)
+            if e is not None:
+                raise e
+            return fn_result
+        ld = vc.load('kopf._core.actions.invocation', 'invoke')
+        try:
+            out = vc.drive(ld.fn(afn, kwargsrc=kwargsrc, kwargs=dict(given)))
+            raised = None
+        except (ValueError, asyncio.CancelledError) as e:
+            out, raised = None, e
+        vc.ensure('async_awaited_directly', (out is fn_result and raised is None) if resolve(fn_error) is None else raised is resolve(fn_error))
+        vc.ensure('kwargs_merged', st.called_with == {'param': 'P', 'retry': 0, 'a': 2})
+        vc.canary('canary.never_cancelled', raised is None)
+        return ('async', type(raised).__name__)
+
+    def sfn(**kw):
+        st.called_with = kw
+        return fn_result
+
+    class Future:
+        def done(self): return st.done
+        def result(self):
+            e = resolve(fn_error)
+            if e is not None:
+                raise e
+            return st.real()
+        def cancel(self): return False
+        def add_done_callback(self, cb): pass
+
+    class Loop:
+        def run_in_executor(self, executor, real_fn):
+            st.real = real_fn
+            st.executor = executor
+            return the_future
+    the_future = Future()
+
+    def complete_or_cancel(site):
+        # at every suspension exactly one of: the thread exits, or the guarding task is cancelled (again)
+        if not st.done and st.cancels < 3 and vc.nondet(2, 'thread exits / task cancelled') == 1:
+            st.cancels += 1
+            return asyncio.CancelledError()
+        st.done = True
+        return None
+
+    async def shield(fut):
+        await suspend('shield')
+        return fut.result()
+
+    async def wait(futs, **kw):
+        await suspend('asyncio.wait')
+        return (set(futs), set())
+    settings = Opaque('settings', execution=Opaque('execution', executor=Opaque('executor')))
+    ld = vc.load('kopf._core.actions.invocation', 'invoke', stubs={
+        'asyncio.get_running_loop': lambda: Loop(), 'asyncio.shield': shield, 'asyncio.wait': wait})
+    out = raised = None
+    try:
+        out = vc.drive(ld.fn(sfn, settings=settings, kwargsrc=kwargsrc, kwargs=dict(given)), on_suspend=complete_or_cancel)
+    except (ValueError, asyncio.CancelledError) as e:
+        raised = e
+    vc.ensure('never_finishes_before_the_thread', st.done is True)
+    err = resolve(fn_error)
+    if st.cancels > 0:
+        # (the handler's own error, if it ended with one, may take precedence over the postponed cancellation)
+        vc.ensure('cancellation_postponed_not_lost', isinstance(raised, asyncio.CancelledError) or (err is not None and raised is err))
+    else:
+        vc.ensure('result_or_error_passed_through', (out is fn_result and raised is None) if err is None else raised is err)
+    vc.ensure('kwargs_merged', st.executor is settings.execution.executor)
+    vc.canary('canary.never_cancelled', st.cancels == 0)
+    return ('sync', st.cancels, type(raised).__name__)
